@@ -9,96 +9,159 @@ From Verif Require Import gen.C08_Registry.
 Import ListNotations.
 Local Open Scope string_scope.
 
-(* ---- from_alias on ANY class graph (multiple inheritance, any finite shape) ---- *)
+(* ---- from_alias on ANY class graph (multiple inheritance, any finite shape, any
+        registration order).  [nid] = identity of a class object, [nreg] = its
+        _registration_index, [nsubs] = __subclasses__(), [nal] = its aliases ---- *)
 
 (* the loop ends within fuel_bound iterations on a finite set of classes closed under __subclasses__ *)
 Theorem from_alias_terminates :
-  forall (N : Type) (nid : N -> Z) (nsubs : N -> list N) (nal : N -> list string) (U : list N),
+  forall (N : Type) (nid nreg : N -> Z) (nsubs : N -> list N) (nal : N -> list string) (U : list N),
     (forall n, In n U -> forall d, In d (nsubs n) -> In d U) ->
     forall root a f, In root U -> fuel_bound N nsubs U <= f ->
-                     run N nid nsubs nal f [root] [] a <> NoFuel.
+                     run N nid nreg nsubs nal f [root] [] None a <> NoFuel.
 Proof. exact run_terminates. Qed.
 Print Assumptions from_alias_terminates.
 
-(* what is instantiated is a (transitive) subclass of cls carrying the alias *)
+(* what is instantiated is a (transitive) subclass of cls carrying the alias:
+   a look-up never leaves the family *)
 Theorem from_alias_sound :
-  forall (N : Type) (nid : N -> Z) (nsubs : N -> list N) (nal : N -> list string) root f a n,
-    run N nid nsubs nal f [root] [] a = Found n ->
+  forall (N : Type) (nid nreg : N -> Z) (nsubs : N -> list N) (nal : N -> list string) root f a n,
+    run N nid nreg nsubs nal f [root] [] None a = Found n ->
     Reach N nsubs root n /\ has_alias N nal a n = true.
 Proof. exact run_sound. Qed.
 Print Assumptions from_alias_sound.
 
-(* ValueError is raised only if no (transitive) subclass carries the alias *)
-Theorem from_alias_unknown_only :
-  forall (N : Type) (nid : N -> Z) (nsubs : N -> list N) (nal : N -> list string) root a,
+(* THE CLAUSE: two (or more) classes share an alias - the one registered last
+   wins, in any hierarchy: the class that is instantiated has the greatest
+   registration index among all (transitive) subclasses carrying the alias *)
+Theorem last_registered_wins :
+  forall (N : Type) (nid nreg : N -> Z) (nsubs : N -> list N) (nal : N -> list string) root a,
     (forall x y, Reach N nsubs root x -> Reach N nsubs root y -> nid x = nid y -> x = y) ->
-    forall f, run N nid nsubs nal f [root] [] a = NotFound ->
+    forall f n, run N nid nreg nsubs nal f [root] [] None a = Found n ->
+    forall c, Reach N nsubs root c -> has_alias N nal a c = true -> (nreg c <= nreg n)%Z.
+Proof. exact run_last_registered. Qed.
+Print Assumptions last_registered_wins.
+
+(* the exact answer.  On a finite class graph closed under __subclasses__, with
+   distinct class objects and distinct registration indices, and enough fuel:
+   from_alias instantiates c  iff  c is reachable from cls (cls included),
+   carries the alias, and every other reachable class carrying the alias has a
+   smaller registration index *)
+Theorem from_alias_spec :
+  forall (N : Type) (nid nreg : N -> Z) (nsubs : N -> list N) (nal : N -> list string) (U : list N),
+    (forall n, In n U -> forall d, In d (nsubs n) -> In d U) ->
+    forall root a, In root U ->
+    (forall x y, Reach N nsubs root x -> Reach N nsubs root y -> nid x = nid y -> x = y) ->
+    (forall x y, Reach N nsubs root x -> Reach N nsubs root y -> nreg x = nreg y -> x = y) ->
+    forall f, fuel_bound N nsubs U <= f ->
+    forall c, run N nid nreg nsubs nal f [root] [] None a = Found c <->
+              (Reach N nsubs root c /\ has_alias N nal a c = true /\
+               forall m, Reach N nsubs root m -> has_alias N nal a m = true -> m <> c ->
+                         (nreg m < nreg c)%Z).
+Proof. exact run_spec. Qed.
+Print Assumptions from_alias_spec.
+
+(* ValueError is raised iff no (transitive) subclass carries the alias *)
+Theorem unknown_alias_error :
+  forall (N : Type) (nid nreg : N -> Z) (nsubs : N -> list N) (nal : N -> list string) (U : list N),
+    (forall n, In n U -> forall d, In d (nsubs n) -> In d U) ->
+    forall root a, In root U ->
+    (forall x y, Reach N nsubs root x -> Reach N nsubs root y -> nid x = nid y -> x = y) ->
+    forall f, fuel_bound N nsubs U <= f ->
+    (run N nid nreg nsubs nal f [root] [] None a = NotFound <->
+     forall n, Reach N nsubs root n -> has_alias N nal a n = false).
+Proof. exact run_not_found_iff. Qed.
+Print Assumptions unknown_alias_error.
+
+(* ... the "only if" half needs neither finiteness nor a fuel bound *)
+Theorem from_alias_unknown_only :
+  forall (N : Type) (nid nreg : N -> Z) (nsubs : N -> list N) (nal : N -> list string) root a,
+    (forall x y, Reach N nsubs root x -> Reach N nsubs root y -> nid x = nid y -> x = y) ->
+    forall f, run N nid nreg nsubs nal f [root] [] None a = NotFound ->
               forall n, Reach N nsubs root n -> has_alias N nal a n = false.
 Proof. exact run_complete. Qed.
 Print Assumptions from_alias_unknown_only.
 
-(* ---- from_alias on ANY class tree: the exact answer ---- *)
+(* a class and one of its (transitive) subclasses carry the alias: the base never
+   answers, because a class is registered after each of its bases *)
+Theorem subclass_shadows_base :
+  forall (N : Type) (nid nreg : N -> Z) (nsubs : N -> list N) (nal : N -> list string) root a,
+    (forall x y, Reach N nsubs root x -> Reach N nsubs root y -> nid x = nid y -> x = y) ->
+    (forall c d, Reach N nsubs root c -> In d (nsubs c) -> (nreg c < nreg d)%Z) ->
+    forall f n, run N nid nreg nsubs nal f [root] [] None a = Found n ->
+    forall base d m, Reach N nsubs root base -> In d (nsubs base) -> Reach N nsubs d m ->
+                     has_alias N nal a m = true -> n <> base.
+Proof. exact subclass_shadows_base_gen. Qed.
+Print Assumptions subclass_shadows_base.
 
-(* the stack machine = first class carrying the alias in [visit_order]:
-   subclasses before their base, later registered siblings first *)
-Theorem from_alias_spec :
-  forall t a f, NoDup (ids t) -> tree_fuel t <= f ->
-    tree_run f [t] [] a = match spec_from_alias t a with
-                          | Some n => Found n
-                          | None => NotFound
-                          end.
-Proof. exact tree_run_spec. Qed.
-Print Assumptions from_alias_spec.
+(* ---- class trees (identity of a class = its registration index; the form in
+        which the registry below and alias_factory_subclass_from_arg use from_alias) ---- *)
 
-(* an alias that no class of the tree carries raises ValueError, and only such an alias does *)
-Theorem unknown_alias_error :
-  forall t a, spec_from_alias t a = None <-> (forall n, In n (visit_order t) -> ~ In a (t_al n)).
-Proof. exact spec_none. Qed.
-Print Assumptions unknown_alias_error.
+Theorem tree_from_alias_spec :
+  forall t a, NoDup (ids t) ->
+    forall c, tree_from_alias t a = Some c <->
+              exists n, In n (visit_order t) /\ t_id n = c /\ In a (t_al n) /\
+                        forall m, In m (visit_order t) -> In a (t_al m) -> m <> n ->
+                                  (t_id m < t_id n)%Z.
+Proof. exact tree_from_alias_spec_l. Qed.
+Print Assumptions tree_from_alias_spec.
+
+Theorem tree_unknown_alias_error :
+  forall t a, NoDup (ids t) ->
+    (tree_from_alias t a = None <-> forall n, In n (visit_order t) -> ~ In a (t_al n)).
+Proof. exact tree_unknown_alias_l. Qed.
+Print Assumptions tree_unknown_alias_error.
 
 Theorem resolved_class_has_alias :
-  forall t a n, spec_from_alias t a = Some n -> In n (visit_order t) /\ In a (t_al n).
-Proof. exact spec_sound. Qed.
+  forall t a c, tree_from_alias t a = Some c ->
+    exists n, In n (visit_order t) /\ t_id n = c /\ In a (t_al n).
+Proof. exact tree_from_alias_in. Qed.
 Print Assumptions resolved_class_has_alias.
 
-(* two sibling subtrees share an alias: the one registered later answers *)
+(* any class tree - no condition on the order in which its branches were registered *)
+Theorem tree_last_registered_wins :
+  forall t a c, NoDup (ids t) -> tree_from_alias t a = Some c ->
+    forall m, In m (visit_order t) -> In a (t_al m) -> (t_id m <= c)%Z.
+Proof. exact tree_last_registered_wins_l. Qed.
+Print Assumptions tree_last_registered_wins.
+
+(* two sibling classes x (earlier) and y (later): if y carries the alias, what is
+   instantiated was registered no earlier than y - never x *)
 Theorem later_sibling_wins :
-  forall c al pre y post a n,
-    spec_from_alias y a = Some n ->
-    (forall m, In m (forest_order post) -> ~ In a (t_al m)) ->
-    spec_from_alias (Node c al (pre ++ y :: post)) a = Some n.
+  forall c al pre x mid y post a r,
+    let t := Node c al (pre ++ x :: mid ++ y :: post) in
+    NoDup (ids t) -> registration_consistent t = true ->
+    In a (t_al y) -> tree_from_alias t a = Some r ->
+    (t_id x < t_id y <= r)%Z.
 Proof. exact later_sibling_wins_l. Qed.
 Print Assumptions later_sibling_wins.
 
-(* a class and one of its subclasses share an alias: the subclass answers *)
-Theorem subclass_shadows_base :
-  forall c al ch a n,
-    spec_from_alias (Node c al ch) a = Some n ->
-    (exists m, In m (forest_order ch) /\ In a (t_al m)) ->
-    In n (forest_order ch).
+(* a class of the tree and one of its (transitive) subclasses carry the alias:
+   what is instantiated was registered after the base - never the base *)
+Theorem subclass_shadows_base_tree :
+  forall t a r base m,
+    NoDup (ids t) -> registration_consistent t = true ->
+    tree_from_alias t a = Some r ->
+    In base (visit_order t) -> In m (forest_order (t_subs base)) -> In a (t_al m) ->
+    (t_id base < r)%Z.
 Proof. exact subclass_shadows_base_l. Qed.
-Print Assumptions subclass_shadows_base.
+Print Assumptions subclass_shadows_base_tree.
 
-(* identities = registration ranks.  In a tree registered depth first, of all
-   classes sharing an alias the one registered last answers ... *)
-Theorem last_registered_wins :
-  forall t a n,
-    registered_depth_first t = true ->
-    spec_from_alias t a = Some n ->
-    forall m, In m (visit_order t) -> In a (t_al m) -> (t_id m <= t_id n)%Z.
-Proof. exact last_registered_wins_l. Qed.
-Print Assumptions last_registered_wins.
-
-(* ... and in general it does not (a subclass registered after a later sibling
-   of its base): the clause holds in the depth-first sense only - see NOTES.md *)
-Theorem last_registered_wins_any_tree_refuted :
+(* the repaired defect, kept on record.  On the hierarchy
+     R; B(R); C(R) aliases={"x"}; D(B) aliases={"x"}      (ids 0,1,2,3 = registration order)
+   the loop before the repair (Model.run_old) answered C although D carries the
+   alias and was registered later; the repaired loop answers D *)
+Theorem last_registered_wins_old_loop_refuted :
   exists t a c m,
     registration_consistent t = true /\ NoDup (ids t) /\
-    tree_from_alias t a = Some c /\ In m (visit_order t) /\ In a (t_al m) /\ (c < t_id m)%Z.
-Proof. exact last_registered_refuted_l. Qed.
-Print Assumptions last_registered_wins_any_tree_refuted.
+    In m (visit_order t) /\ In a (t_al m) /\
+    tree_from_alias_old t a = Some c /\ (c < t_id m)%Z /\
+    tree_from_alias t a = Some (t_id m).
+Proof. exact old_loop_refuted_new_loop_repaired_l. Qed.
+Print Assumptions last_registered_wins_old_loop_refuted.
 
-(* ---- the registry extracted from the sources ---- *)
+(* ---- the registry extracted from the sources (class identities = registration
+        order = the order of the values of _registration_index) ---- *)
 
 (* every alias of every concrete class resolves to that class, from its family
    root and from every intermediate base class *)
@@ -123,6 +186,7 @@ Theorem registry_info_complete : info_complete_b reg = true.
 Proof. exact reg_info_complete_l. Qed.
 Print Assumptions registry_info_complete.
 
+(* informative only: no theorem depends on it any more *)
 Theorem registry_registered_depth_first :
   registered_depth_first reg_tree = true
   /\ forallb registered_depth_first (flat_map visit_order (family_trees reg reg_families)) = true.
